@@ -147,17 +147,20 @@ def build(ck):          # noqa: F811
         ta, tb = flat_terms(S, a), flat_terms(S, b)
         na, nb = to_z3(ta.length), to_z3(tb.length)
         S.oblige('post', to_z3(got.length) == na + nb, tag=f'{nm}:number-of-terms')
-        S.oblige('post', got.forall(lambda k, e: z_eq(e, ta.get(k)), 0, ta.length), tag=f'{nm}:left-terms-first-in-order')
-        if not sub:
-            S.oblige('post', got.forall(lambda k, e: z_eq(e, tb.get(to_z3(k) - na)), ta.length, got.length),
-                     tag=f'{nm}:right-terms-follow-in-order')
-        else:
-            # every term of b appears negated: same word, opposite coefficient, same structures
-            S.oblige('post', got.forall(lambda k, e: z_and(A.denw(e) == A.denw(tb.get(to_z3(k) - na)),
-                                                          A.denc(e) == -A.denc(tb.get(to_z3(k) - na)),
-                                                          A.ins(e) == A.ins(tb.get(to_z3(k) - na)),
-                                                          A.outs(e) == A.outs(tb.get(to_z3(k) - na))),
-                                        ta.length, got.length), tag=f'{nm}:right-terms-follow-negated', exact=False)
+        # a sum does not depend on the order of its terms: the result lists a's terms and b's terms (negated for `-`),
+        # each block in its own order, in either order of the two blocks
+        def rel(e, t):
+            if not sub:
+                return z_eq(e, t)
+            return z_and(A.denw(e) == A.denw(t), A.denc(e) == -A.denc(t), A.ins(e) == A.ins(t), A.outs(e) == A.outs(t))
+        n = to_z3(got.length)
+        a_then_b = z_and(got.forall(lambda k, e: z_eq(e, ta.get(k)), 0, ta.length),
+                         got.forall(lambda k, e: rel(e, tb.get(to_z3(k) - na)), ta.length, got.length))
+        b_then_a = z_and(got.forall(lambda k, e: rel(e, tb.get(k)), 0, tb.length),
+                         got.forall(lambda k, e: z_eq(e, ta.get(to_z3(k) - nb)), tb.length, got.length))
+        from pyvc.values import z_or
+        S.oblige('post', z_or(a_then_b, b_then_a), tag=f'{nm}:terms-of-both-operands' + ('-right-ones-negated' if sub else ''),
+                 exact=False)
     for lk in SUMK:
         for rk in SUMK:
             for sub in (False, True):
